@@ -368,6 +368,16 @@ def outcomeStr : Outcome S → String
 
 def getSeqs (x : Sequence) : String := ",".intercalate ((x.features.getD []).map fun f => outcomeStr f.getSeq)
 
+/-- the implementation's GetSequence replies (`,`-separated, one per feature) agree with the model on
+every feature whose parent pointer leads to `x`'s own sequence text -/
+def getSeqLinkedSame (x : Sequence) (replies : String) : Bool :=
+  let fs := x.features.getD []
+  if fs.isEmpty then replies == ""
+  else
+    let rs := replies.splitOn ","
+    rs.length == fs.length &&
+      (fs.zip rs).all fun p => p.1.parent != some x.sequence || p.2 == outcomeStr p.1.getSeq
+
 def jsonOf (text : String) : Option JVal := JsonRead.parse (ofStr text)
 def sameJ (a : Option JVal) (b : JVal) : Bool :=
   match a with
@@ -451,13 +461,14 @@ def judge (f out : List String) : Verdict :=
       -- domain of the writers' models: printable ASCII, no integer overflow in `Start + 1`
       let plain := ((allStrings x).all fun t => t.all fun c => 32 ≤ c && c ≤ 126)
         && (x.features.getD []).all (fun f => locNoOverflow f.sequenceLocation)
-      let asciiParents := (x.features.getD []).all fun f => isAscii (f.parent.getD [])
       match out with
       | ["ok", jtext, crt, gsx, gsrt, ftext, crd, cfl, gbx, gbrt, gfx, gfrt] =>
         let corrParts : List (String × Bool) := [
           ("marshal", sameJ (jsonOf jtext) mJ),
           ("parse", crt == cRt),
-          ("getseq-before", !asciiParents || gsx == getSeqs x),
+          -- before the round trip only features that are linked to `x` report a sequence the property speaks
+          -- about; what GetSequence does on a nil or foreign parent pointer is not compared
+          ("getseq-before", !ascii || getSeqLinkedSame x gsx),
           ("getseq-after", !ascii || gsrt == getSeqs mRt),
           ("write", sameJ (jsonOf ftext) mJ),
           ("read", crd == cRt),
